@@ -6,7 +6,9 @@ prop=$1; patch=$(readlink -f "$2"); tier=${3:-quick}
 wt=$(mktemp -d /tmp/mutrun_XXXXXX)
 git -C /repo worktree add -q --detach "$wt/wt" HEAD || exit 9
 if ! git -C "$wt/wt" apply "$patch"; then echo "PATCH DOES NOT APPLY"; git -C /repo worktree remove --force "$wt/wt"; rm -rf "$wt"; exit 9; fi
-VERIF_REPO="$wt/wt" VERIF_OUT="$wt/out" /verif/vcheck "$prop" --tier "$tier" > "$wt/log" 2>&1
+# run from a snapshot of /verif so that edits made there meanwhile do not disturb the run
+rsync -a --exclude .git --exclude evidence --exclude seeded /verif/ "$wt/verif/"
+VERIF_REPO="$wt/wt" VERIF_OUT="$wt/out" "$wt/verif/vcheck" "$prop" --tier "$tier" > "$wt/log" 2>&1
 rc=$?
 grep -E "VIOLATION|KNOWN-FINDING|INCONCLUSIVE|^OK|harness=" "$wt/log" | cut -c1-400 | head -40
 echo "mutrun: prop=$prop patch=$patch rc=$rc"
